@@ -564,7 +564,7 @@ func validatorCoverage(c *Ctx) {
 			dNil := false
 			neg, hashOK := false, false
 			for a, v := range s.m {
-				if strings.HasPrefix(a, "n:d@") && v == "nil" {
+				if po := paramObj(fd, 0); po != nil && a == "n:"+objID(po) && v == "nil" {
 					dNil = true
 				}
 				if strings.HasPrefix(a, "p:") && strings.Contains(a, ".SizeBytes<#0") && v == "F" {
